@@ -83,7 +83,7 @@ _SIMPLE = {
     "Self": None,  # filled by caller
     "RateFn": obj("function"),
     "Callable": obj("function"),
-    "Path": obj("Path"),
+    "Path": STR,  # paths are modelled as their string (pyvc/lib_fs.py)
 }
 
 _GENERIC_DICT = {"dict", "Mapping", "MutableMapping", "Dict"}
